@@ -49,7 +49,10 @@ _TreeSet_update(BTree *self, PyObject *seq)
         if (v == NULL)
         {
             if (PyErr_Occurred())
+            {
+                ind = -1;  /* the iterator failed: report its exception */
                 goto err;
+            }
             else
                 break;
         }
